@@ -110,3 +110,59 @@ def c11_index_reused(viol, inp, param):
                     if decls[k]["k"] == "eref" and bundle(decls[k]) == b:
                         return True
     return False
+
+
+# ---- C12: a glob declaration repeated verbatim in the same scope is not applied a second time -------
+_GALPHA = None
+
+
+def _galphabet():
+    global _GALPHA
+    if _GALPHA is None:
+        _GALPHA = json.load(open(_os.path.join(_os.path.dirname(_os.path.dirname(_os.path.abspath(__file__))), "specs", "ir_alphabet_glob.json")))
+    return _GALPHA
+
+
+@classifier("c12_identical_glob_repeated")
+def c12_identical_glob(viol, inp, param):
+    if viol["aspect"] not in ("shape-is-not-the-last-assignment", "attribute-is-not-the-last-assignment", "label-differs-from-model"):
+        return False
+    decls = _galphabet()["decls"]
+    prog = inp["prog"]
+    d = json.loads(viol["detail"])
+    expected = d[2]
+    exp_vals = set()
+    if isinstance(expected, dict) and "__set__" in expected:
+        exp_vals = {tuple(p) for p in expected["__set__"]}
+    for i in set(prog):
+        g = decls[i - 1]
+        if g["k"] != "glob" or prog.count(i) < 2:
+            continue
+        if viol["aspect"] == "shape-is-not-the-last-assignment" and g["a"] == "shape" and g["v"] == expected:
+            return True
+        if viol["aspect"] == "label-differs-from-model" and g["a"] == "label" and g["v"] == expected:
+            return True
+        if viol["aspect"] == "attribute-is-not-the-last-assignment" and (g["a"], g["v"]) in exp_vals:
+            return True
+    return False
+
+
+# ---- C12: an object declared again after `x: null` does not receive the standing globs --------------
+@classifier("c12_recreated_after_null_misses_globs")
+def c12_recreated(viol, inp, param):
+    if viol["aspect"] not in ("shape-is-not-the-last-assignment", "attribute-is-not-the-last-assignment", "label-differs-from-model"):
+        return False
+    al = _galphabet()
+    fold = al["fold"]
+    decls = [al["decls"][i - 1] for i in inp["prog"]]
+    path = json.loads(viol["detail"])[0]
+    line = viol["i"]
+    seen_glob = False
+    for d in decls[:max(line - 1, 0)]:
+        if d["k"] == "glob":
+            seen_glob = True
+        if d["k"] == "null":
+            p = [fold[x] for x in d["p"]]
+            if path[:len(p)] == p and (seen_glob or any(x["k"] == "glob" for x in decls)):
+                return True
+    return False
